@@ -211,11 +211,77 @@ def translate():
 # ----------------------------------------------------------------------------------------
 # log synthesis: the Python twin of `renderLog` (lean/Atomman/C19.lean)
 # ----------------------------------------------------------------------------------------
-THEOREMS = []
-PARTIAL = {}
-RULE = ''
-ASSUMPTIONS = []
-TRUSTED = []
+THEOREMS = [
+    # read: one record per run, in order, header tokens as columns, printed rows row for row (incl. truncated last run)
+    'C19.read_tables', 'C19.read_layout', 'C19.read_render',
+    # read(append=True/False)
+    'C19.read_append', 'C19.read_reset', 'C19.append_concat',
+    # version string and date
+    'C19.read_version_kept', 'C19.read_version_new', 'C19.version_date', 'C19.month_table_calendar',
+    # printed cells are read back token by token
+    'C19.splitWs_renderCells',
+    # flatten
+    'C19.flatten_all', 'C19.flatten_nil', 'C19.flatten_first', 'C19.flatten_last',
+    'C19.flatten_first_sublist', 'C19.flatten_last_sublist', 'C19.flatten_first_once', 'C19.flatten_last_once',
+    'C19.flatten_first_sorted', 'C19.flatten_last_sorted', 'C19.flatten_first_earliest', 'C19.flatten_last_latest',
+    'C19.flatten_first_complete', 'C19.flatten_last_complete',
+]
+PARTIAL = {
+    'timing breakdown': 'read_render (exact resulting state, incl. that read() does not raise) is proved for logs without a '
+                        'timing-breakdown trigger line; with breakdowns the thermo clause is proved conditionally on '
+                        'read() returning (read_layout) and unconditionally for the table reads themselves (read_tables): '
+                        'that the performance-table reads of a well-formed breakdown never raise is checked by the '
+                        'correspondence only',
+    'value by value': 'the theorems are about the printed tokens (strings); that pandas turns the token of an int/float '
+                      'column into the number it denotes is an assumption, checked by the oracle on the real code',
+    'flatten with empty runs': 'flatten_first needs a non-empty first run and flatten_last non-empty later runs (pandas '
+                               'compares against the NaN max/min of an empty table: first then keeps nothing, last '
+                               'drops everything before the empty run); the once/sorted/sublist theorems hold without',
+    'flatten every timestep': 'flatten_*_complete need the runs to share a thermo grid where they overlap (hypothesis '
+                              'haligned); a restart on a shifted grid loses the steps below the previous maximum — the '
+                              'code cannot do otherwise with its single comparison',
+}
+RULE = ('logs synthesised from the documented layout: optional LAMMPS (<d> <Mon> <y>[suffix]) banner, preamble noise, 0-6 '
+        'runs with either memory-usage banner, 1-9 thermo keywords (Step first, elsewhere or absent), int and float '
+        'columns with 12 float token shapes (incl. nan/inf/1e-300/17 digits), five padding styles, blank lines in and '
+        'around blocks, optional WARNING lines inside blocks (correspondence only), new/old/no timing breakdown, '
+        'minimize statistics, histograms, truncated last run, \\n or \\r\\n, with/without final newline; step ranges '
+        'continuing, restarting on the grid, with gaps, shifted grids, backwards; histories of 1-4 logs read as text/bytes/'
+        'path/stream/file object through Log(..) or read(.., append=None/True/False) interleaved with flatten(first/last/all/'
+        'bogus, firstindex, lastindex); malformed logs for the error classes. distinct = distinct (log texts, ops); '
+        'non-trivial = at least one run in the history')
+ASSUMPTIONS = [
+    'pandas.read_csv(stream, header=h, nrows=n, sep=r"\\s+", skip_blank_lines=True) takes non-blank line h as the header, '
+    'the next n non-blank lines (fewer at end of file) as rows, splits them on ASCII whitespace, pads short rows with NaN '
+    'and raises ParserError for a row wider than the header (model: readThermo; checked on every correspondence case)',
+    'pandas parses an integer token exactly and a float token to within 16 ulp of the decimal it denotes (xstrtod), so the '
+    'values of the table are the printed values; "nan"/"inf" tokens become NaN/inf',
+    'pandas comparisons with the NaN max()/min() of an empty column are False (mergeFirst/mergeLast on empty tables)',
+    'datetime.date(y, m, d) accepts exactly 1<=y<=9999, 1<=m<=12, 1<=d<=days in month (Gregorian leap rule)',
+    'str.split()/strip() whitespace on the log lines is ASCII whitespace (the synthesised logs contain no other Unicode '
+    'whitespace)',
+    'uber_open_rmode presents text, bytes, path and stream input as the same sequence of lines',
+]
+TRUSTED = ['pandas/numpy inside the real Log', 'the log synthesiser and the clause oracle in harness/props/c19.py',
+           'the constant extractor (ast walk of Log.read / __read_lammps_version)']
+MANIFEST = {
+    'text': 'Lean model over character lists of Log.read (single pass that skips and does not count blank lines, trigger '
+            'strings / line-number offsets / version slice / month table regenerated from Log.py on every run, table '
+            'blocks cut out of the non-blank lines, version and date, read(append=) on the state) and of Log.flatten '
+            '(first/last/all folds with pandas NaN semantics). Theorems: every well-formed layout (any preamble, runs '
+            'with either banner, blank lines anywhere, arbitrary text between runs incl. timing breakdowns, last run '
+            'possibly cut short) is read back as one table per run in order with the header tokens as columns and the '
+            'printed lines as rows; a log printed from a token-level specification is read back exactly (tables, version, '
+            'date); append concatenates and append=False resets; flatten all = concatenation; first/last keep exactly the '
+            'rows not superseded by an earlier/later run, each step once, from the earliest/latest run printing it, sorted, '
+            'complete on aligned grids. Tie: translator for the constants + differential correspondence real Log vs '
+            'compiled model on synthesised histories (exact on integers, 16 ulp on floats); failing-input search with the '
+            'property clauses evaluated on the real code from the run specifications alone.',
+    'note': 'Trusted: Lean kernel + propext/Classical.choice/Quot.sound; pandas read_csv/concat behaviour as stated in '
+            'ASSUMPTIONS (exercised on every case); the Python log synthesiser/oracle. Performance tables are compared in '
+            'the correspondence only.',
+    'technique': 'Lean 4 theorems over a hand-written model + translator-generated constants + differential correspondence',
+}
 
 MONTHS = ['Jan', 'Feb', 'Mar', 'Apr', 'May', 'Jun', 'Jul', 'Aug', 'Sep', 'Oct', 'Nov', 'Dec']
 INT_KEYS = ['Atoms', 'Elapsed', 'Elaplong', 'Bonds', 'Angles', 'v_count', 'c_nn', 'Nbuild', 'Ndanger']
